@@ -62,7 +62,7 @@ class MemMapWorld(World):
     real_components = ("memory.MemoryMap (allocator, range map, namespace, translation)",
                        "csr.Bridge constructor (freeze-by-use)")
     stub_components = ("resources are inert wiring.Component / csr.Register objects",)
-    fault_kinds = ("abandoned_query", "rejected_call", "invalid_argument", "overlap_explicit", "out_of_bounds",
+    fault_kinds = ("abandoned_query", "equal_but_distinct_object", "rejected_call", "invalid_argument", "overlap_explicit", "out_of_bounds",
                    "duplicate_object", "name_conflict", "add_after_freeze", "bad_window")
     assumptions = (
         "no clock and no concurrency exist for these properties: 'simulation' is sequential "
@@ -85,7 +85,12 @@ class MemMapWorld(World):
         n = rng.range(2, 6)
         roomy = prop == "C18"
         maps = []
+        huge = rng.chance(0.06)
         for i in range(n):
+            if huge and (i == 0 or rng.chance(0.5)):
+                maps.append({"aw": rng.choice([40, 54, 56, 60, 64]), "dw": rng.choice([8, 8, 32]),
+                             "al": rng.choice([0, 0, 4, 8]), "regs": False, "huge": 1})
+                continue
             maps.append({"aw": rng.range(6, 10) if roomy else rng.range(1, 8),
                          "dw": rng.choice([8, 8, 8, 8, 8, 16, 32]),
                          "al": rng.choice([0, 0, 1, 2, 3]) if not roomy else rng.choice([0, 0, 1]),
@@ -103,10 +108,20 @@ class MemMapWorld(World):
             m = rng.below(nm)
             aw = config["maps"][m]["aw"]
             if k < 50:
-                op = {"k": "res", "m": m, "size": rng.choice([0, 1, 1, 2, 3, 4, 5, 8]),
-                      "addr": None if rng.chance(0.6) else rng.range(-1, (1 << aw) + 1),
+                if config["maps"][m].get("huge"):
+                    top = 1 << aw
+                    size = rng.choice([1, 3, (1 << (aw - 4)) + 1, (1 << (aw - 1)) - 255, 255,
+                                       (1 << 53) + 1, rng.bits(aw - 2) | 1])
+                    addr = None if rng.chance(0.6) else rng.choice(
+                        [top - 256, top - 255, (1 << (aw - 1)) + 1, rng.bits(aw), (1 << 53) + 2])
+                else:
+                    size = rng.choice([0, 1, 1, 2, 3, 4, 5, 8])
+                    addr = None if rng.chance(0.6) else rng.range(-1, (1 << aw) + 1)
+                op = {"k": "res", "m": m, "size": size, "addr": addr,
                       "align": None if rng.chance(0.6) else rng.range(0, 3),
                       "name": self._name(rng), "obj": -1}
+                if rng.chance(0.08):
+                    op["twin"] = rng.below(8)         # a distinct object that compares equal
                 if rng.chance(0.06):
                     op["obj"] = rng.below(8)          # duplicate-object fault
                 if rng.chance(0.05):
@@ -145,6 +160,18 @@ class MemMapWorld(World):
             def __init__(self):
                 super().__init__({"x": Out(1)})
 
+        class VC(C):
+            """A resource type with value-like equality: two distinct objects can be equal."""
+            def __init__(self, tag):
+                super().__init__()
+                self.tag = tag
+
+            def __eq__(self, other):
+                return isinstance(other, VC) and self.tag == other.tag
+
+            def __hash__(self):
+                return hash(("VC", self.tag))
+
         maps_cfg = config["maps"]
         if not maps_cfg:
             return
@@ -158,7 +185,7 @@ class MemMapWorld(World):
                 raise Refused(str(e))
             model.append(MMap(mc["aw"], mc["dw"], mc["al"]))
         objs = []           # (object, map index or None)
-        never_added = [C(), C()]
+        never_added = [C(), C(), VC(0), VC(1), VC(2)]
         c02 = "C02" in props
         c03 = "C03" in props
         c18 = "C18" in props
@@ -229,16 +256,35 @@ class MemMapWorld(World):
                         raise V("C03", "find_resource-found-never-added", step, f"map {i}")
                     except KeyError:
                         pass
-                owner = {}
-                for e in exp:
-                    for a in range(e[2], e[3]):
-                        if a in owner:
-                            raise V("C03", "reported-ranges-overlap", step, f"map {i} addr {a}")
-                        owner[a] = e[0]
-                for a in range(1 << model[i].aw):
+                if model[i].aw <= 10:
+                    owner = {}
+                    for e in exp:
+                        for a in range(e[2], e[3]):
+                            if a in owner:
+                                raise V("C03", "reported-ranges-overlap", step, f"map {i} addr {a}")
+                            owner[a] = e[0]
+                    probe = range(1 << model[i].aw)
+                    lookup = owner.get
+                else:
+                    # huge maps: every range boundary and its neighbours instead of every address
+                    srt = sorted(exp, key=lambda e: e[2])
+                    for e1, e2 in zip(srt, srt[1:]):
+                        if e1[3] > e2[2]:
+                            raise V("C03", "reported-ranges-overlap", step, f"map {i}")
+                    top = 1 << model[i].aw
+                    probe = sorted({a for e in exp for a in (e[2] - 1, e[2], e[2] + 1, e[3] - 2,
+                                                             e[3] - 1, e[3], (e[2] + e[3]) // 2)
+                                    if 0 <= a < top} | {0, top - 1})
+
+                    def lookup(a):
+                        for e in exp:
+                            if e[2] <= a < e[3]:
+                                return e[0]
+                        return None
+                for a in probe:
                     d = real[i].decode_address(a)
                     stats.checks += 1
-                    if (None if d is None else id(d)) != owner.get(a):
+                    if (None if d is None else id(d)) != lookup(a):
                         raise V("C03", "decode_address-mismatch", step,
                                 f"map {i}: decode_address({a}) disagrees with reported ranges")
                 if any(it["kind"] == "win" and it["ratio"] > 1 for it in model[i].items):
@@ -352,8 +398,12 @@ class MemMapWorld(World):
                     new_index = oi
                     reuse = True
                 else:
-                    obj = csr.Register(csr.Field(csr.action.R, 1), access="r") \
-                        if maps_cfg[m].get("regs") else C()
+                    if op.get("twin") is not None and not maps_cfg[m].get("regs"):
+                        obj = VC(int(op["twin"]) % 3)      # equal to other VC(tag) objects, not identical
+                        stats.fault("equal_but_distinct_object")
+                    else:
+                        obj = csr.Register(csr.Field(csr.action.R, 1), access="r") \
+                            if maps_cfg[m].get("regs") else C()
                     reuse = False
                     new_index = len(objs)
                 if bad == "size_neg":
